@@ -41,6 +41,10 @@ type kase struct {
 	U     uint64 `json:"u,omitempty"`     // numeric kinds: the value
 	Len   int    `json:"len,omitempty"`   // bytes/string: the length
 	CSeed int64  `json:"cseed,omitempty"` // bytes/string: content seed (<0: constant fill); concat: generator seed
+	// Sub: bytes/string longer than 8 KiB: try a subset of the destination lengths (0..64, size-64..size+1 and
+	// 257 equidistant ones) instead of all of them. A failing Marshal formats an error (~1 µs), so the full
+	// sweep is kept for the listed lengths and the thorough tier.
+	Sub bool `json:"sub,omitempty"`
 }
 
 func (k kase) String() string {
@@ -429,7 +433,7 @@ func lenClass(n int) string {
 
 // sweepLens calls f for every destination length to be tried for an encoding of the given size.
 func sweepLens(size int, reduced bool, f func(L int) *vio) *vio {
-	if !reduced || size <= 4096 {
+	if !reduced || size <= 8192 {
 		for L := 0; L <= size+1; L++ {
 			if v := f(L); v != nil {
 				return v
@@ -503,9 +507,9 @@ func checkBlob(c *blobCodec, val []byte, k kase, w *worker) *vio {
 		w.sink = bytes.Buffer{}
 	}
 
-	// 4. destination lengths. A failing attempt costs O(1), so even the 2 MiB strings get every length.
+	// 4. destination lengths. A failing attempt costs O(1) (about 1 µs), so even the 2 MiB strings get every length.
 	dst := w.alloc(size + 1)
-	if v := sweepLens(size, w.secondary, func(L int) *vio {
+	if v := sweepLens(size, w.secondary || k.Sub, func(L int) *vio {
 		var buf []byte
 		if w.secondary && size <= 512 {
 			buf = make([]byte, L)
@@ -857,6 +861,7 @@ func boundaryValues(bitsN int) []uint64 {
 type plan struct {
 	seed       int64
 	reduced    bool
+	subRandom  bool // random byte strings > 8 KiB: subset of the destination lengths
 	randNum    int // random values per wide numeric kind
 	randBlob   int // random byte strings per blob kind
 	allLensTo  int // every length 0..allLensTo per blob kind
@@ -874,6 +879,7 @@ func makePlan(run *report.Run, pass string) plan {
 	p.allLensTo = run.Pick(700, 2100)
 	p.concats = run.Pick(30_000, 300_000)
 	p.u16Stride = 1
+	p.subRandom = !run.Thorough()
 	p.bigBlobLen = []int{2097151, 2097152, 2097153}
 	if pass != "main" {
 		p.reduced = true
@@ -962,9 +968,9 @@ func (p plan) batches() []batch {
 				rng := rand.New(rand.NewSource(p.seed*9_000_011 + int64(c.idx)*1_000_003 + int64(s)))
 				n := min(shard, p.randBlob-s*shard)
 				for i := 0; i < n; i++ {
-					b := uint(rng.Intn(18))
+					b := uint(rng.Intn(16))
 					ln := int(rng.Int63n(1<<(b+1))) + (1<<b - 1)
-					do(kase{Kind: c.kind, Len: ln, CSeed: 1 + rng.Int63n(1<<40)})
+					do(kase{Kind: c.kind, Len: ln, CSeed: 1 + rng.Int63n(1<<40), Sub: p.subRandom})
 				}
 			}})
 		}
@@ -1058,7 +1064,7 @@ func TestCheck(t *testing.T) {
 	run.Note("batches", len(bs))
 	run.Note("exhaustive_parts", []string{"byte: all 256 values", "uint16: all 65536 values"})
 	run.Note("plan", map[string]any{"random_values_per_wide_kind": p.randNum, "random_byte_strings_per_kind": p.randBlob,
-		"every_length_up_to": p.allLensTo, "concatenations": p.concats, "reduced": p.reduced})
+		"every_length_up_to": p.allLensTo, "random_byte_strings_subset_sweep_above_8KiB": p.subRandom, "concatenations": p.concats, "reduced": p.reduced})
 	collect(run, workers)
 }
 
